@@ -260,6 +260,163 @@ Lemma tie_merge_tool_main : TIE_merge_tool_main =
    (0, "return(EXIT_SUCCESS)")].
 Proof. reflexivity. Qed.
 
+(* mtbl/merger.c: mtbl_merger_options_init *)
+Lemma tie_mg_mtbl_merger_options_init : TIE_mg_mtbl_merger_options_init =
+  [(0, "return(my_calloc(1,sizeof(structmtbl_merger_options)))")].
+Proof. reflexivity. Qed.
+
+(* mtbl/merger.c: mtbl_merger_options_destroy *)
+Lemma tie_mg_mtbl_merger_options_destroy : TIE_mg_mtbl_merger_options_destroy =
+  [(0, "if(*opt)");
+   (1, "free(*opt)");
+   (1, "*opt=NULL")].
+Proof. reflexivity. Qed.
+
+(* mtbl/merger.c: mtbl_merger_options_set_merge_func *)
+Lemma tie_mg_mtbl_merger_options_set_merge_func : TIE_mg_mtbl_merger_options_set_merge_func =
+  [(0, "opt->merge=merge");
+   (0, "opt->merge_clos=clos")].
+Proof. reflexivity. Qed.
+
+(* mtbl/merger.c: mtbl_merger_options_set_dupsort_func *)
+Lemma tie_mg_mtbl_merger_options_set_dupsort_func : TIE_mg_mtbl_merger_options_set_dupsort_func =
+  [(0, "opt->dupsort=dupsort");
+   (0, "opt->dupsort_clos=clos")].
+Proof. reflexivity. Qed.
+
+(* mtbl/merger.c: mtbl_merger_init *)
+Lemma tie_mg_mtbl_merger_init : TIE_mg_mtbl_merger_init =
+  [(0, "structmtbl_merger*m");
+   (0, "m=my_calloc(1,sizeof(*m))");
+   (0, "m->sources=source_vec_init(0)");
+   (0, "assert(opt!=NULL)");
+   (0, "memcpy(&m->opt,opt,sizeof(*opt))");
+   (0, "m->source=mtbl_source_init(merger_iter,merger_get,merger_get_prefix,merger_get_range,NULL,m)");
+   (0, "return(m)")].
+Proof. reflexivity. Qed.
+
+(* mtbl/merger.c: mtbl_merger_source *)
+Lemma tie_mg_mtbl_merger_source : TIE_mg_mtbl_merger_source =
+  [(0, "return(m->source)")].
+Proof. reflexivity. Qed.
+
+(* mtbl/merger.c: mtbl_merger_add_source *)
+Lemma tie_mg_mtbl_merger_add_source : TIE_mg_mtbl_merger_add_source =
+  [(0, "source_vec_add(m->sources,s)")].
+Proof. reflexivity. Qed.
+
+(* mtbl/merger.c: merger_iter_add_entry *)
+Lemma tie_mg_merger_iter_add_entry : TIE_mg_merger_iter_add_entry =
+  [(0, "structentry*ent=my_calloc(1,sizeof(*ent))");
+   (0, "ent->it=ent_it");
+   (0, "ent->finished=false");
+   (0, "mtbl_resres=entry_fill(ent)");
+   (0, "if(res!=mtbl_res_success)");
+   (1, "free(ent)");
+   (0, "else");
+   (1, "heap_push(it->h,ent)");
+   (1, "entry_vec_add(it->entries,ent)")].
+Proof. reflexivity. Qed.
+
+(* mtbl/merger.c: merger_iter *)
+Lemma tie_mg_merger_iter : TIE_mg_merger_iter =
+  [(0, "structmtbl_merger*m=(structmtbl_merger*)clos");
+   (0, "structmerger_iter*it=merger_iter_init(m)");
+   (0, "for(size_ti=0;i<source_vec_size(m->sources);i++)");
+   (1, "conststructmtbl_source*s=source_vec_value(m->sources,i)");
+   (1, "structmtbl_iter*s_it=mtbl_source_iter(s)");
+   (1, "iter_vec_add(it->iters,s_it)");
+   (1, "merger_iter_add_entry(it,s_it)");
+   (0, "return(mtbl_iter_init(merger_iter_seek,merger_iter_next,merger_iter_free,it))")].
+Proof. reflexivity. Qed.
+
+(* mtbl/merger.c: merger_get *)
+Lemma tie_mg_merger_get : TIE_mg_merger_get =
+  [(0, "structmtbl_merger*m=(structmtbl_merger*)clos");
+   (0, "structmerger_iter*it=merger_iter_init(m)");
+   (0, "for(size_ti=0;i<source_vec_size(m->sources);i++)");
+   (1, "conststructmtbl_source*s=source_vec_value(m->sources,i)");
+   (1, "structmtbl_iter*s_it=mtbl_source_get_range(s,key,len_key,key,len_key)");
+   (1, "if(s_it!=NULL)");
+   (2, "iter_vec_add(it->iters,s_it)");
+   (2, "merger_iter_add_entry(it,s_it)");
+   (0, "if(entry_vec_size(it->entries)==0)");
+   (1, "merger_iter_free(it)");
+   (1, "return(NULL)");
+   (0, "return(mtbl_iter_init(merger_iter_seek,merger_iter_next,merger_iter_free,it))")].
+Proof. reflexivity. Qed.
+
+(* mtbl/merger.c: merger_get_range *)
+Lemma tie_mg_merger_get_range : TIE_mg_merger_get_range =
+  [(0, "structmtbl_merger*m=(structmtbl_merger*)clos");
+   (0, "structmerger_iter*it=merger_iter_init(m)");
+   (0, "for(size_ti=0;i<source_vec_size(m->sources);i++)");
+   (1, "conststructmtbl_source*s=source_vec_value(m->sources,i)");
+   (1, "structmtbl_iter*s_it=mtbl_source_get_range(s,key0,len_key0,key1,len_key1)");
+   (1, "if(s_it!=NULL)");
+   (2, "iter_vec_add(it->iters,s_it)");
+   (2, "merger_iter_add_entry(it,s_it)");
+   (0, "if(entry_vec_size(it->entries)==0)");
+   (1, "merger_iter_free(it)");
+   (1, "return(NULL)");
+   (0, "return(mtbl_iter_init(merger_iter_seek,merger_iter_next,merger_iter_free,it))")].
+Proof. reflexivity. Qed.
+
+(* mtbl/merger.c: merger_get_prefix *)
+Lemma tie_mg_merger_get_prefix : TIE_mg_merger_get_prefix =
+  [(0, "structmtbl_merger*m=(structmtbl_merger*)clos");
+   (0, "structmerger_iter*it=merger_iter_init(m)");
+   (0, "for(size_ti=0;i<source_vec_size(m->sources);i++)");
+   (1, "conststructmtbl_source*s=source_vec_value(m->sources,i)");
+   (1, "structmtbl_iter*s_it=mtbl_source_get_prefix(s,key,len_key)");
+   (1, "if(s_it!=NULL)");
+   (2, "iter_vec_add(it->iters,s_it)");
+   (2, "merger_iter_add_entry(it,s_it)");
+   (0, "if(entry_vec_size(it->entries)==0)");
+   (1, "merger_iter_free(it)");
+   (1, "return(NULL)");
+   (0, "return(mtbl_iter_init(merger_iter_seek,merger_iter_next,merger_iter_free,it))")].
+Proof. reflexivity. Qed.
+
+(* libmy/heap.c: heap_init *)
+Lemma tie_hp_heap_init : TIE_hp_heap_init =
+  [(0, "structheap*h=my_calloc(1,sizeof(*h))");
+   (0, "h->cmp=cmp");
+   (0, "h->clos=clos");
+   (0, "h->vec=ptrvec_init(1)");
+   (0, "return(h)")].
+Proof. reflexivity. Qed.
+
+(* libmy/heap.c: heap_destroy *)
+Lemma tie_hp_heap_destroy : TIE_hp_heap_destroy =
+  [(0, "if(*h!=NULL)");
+   (1, "ptrvec_destroy(&(*h)->vec)");
+   (1, "free(*h)");
+   (1, "*h=NULL")].
+Proof. reflexivity. Qed.
+
+(* libmy/heap.c: heap_clip *)
+Lemma tie_hp_heap_clip : TIE_hp_heap_clip =
+  [(0, "ptrvec_clip(h->vec,n_elems)")].
+Proof. reflexivity. Qed.
+
+(* libmy/heap.c: heap_add *)
+Lemma tie_hp_heap_add : TIE_hp_heap_add =
+  [(0, "ptrvec_add(h->vec,item)")].
+Proof. reflexivity. Qed.
+
+(* libmy/heap.c: heap_push *)
+Lemma tie_hp_heap_push : TIE_hp_heap_push =
+  [(0, "ptrvec_add(h->vec,item)");
+   (0, "siftup(h)")].
+Proof. reflexivity. Qed.
+
+(* libmy/heap.c: heap_peek *)
+Lemma tie_hp_heap_peek : TIE_hp_heap_peek =
+  [(0, "if(ptrvec_size(h->vec)<1)return(NULL)");
+   (0, "returnptrvec_data(h->vec)[0]")].
+Proof. reflexivity. Qed.
+
 (* libmy/vector.h: whole file *)
 Lemma tie_vector_h : TIE_vector_h =
   [(0, "#include<assert.h>");
